@@ -481,6 +481,9 @@ def run_job(job, w):
 
 def run_one(argv):
     """--one <doc.json> <out.json> : confirmation run of one case in a fresh process."""
+    import resource
+    # never outlive the parent as a spinning orphan: hard CPU limit for this confirmation process
+    resource.setrlimit(resource.RLIMIT_CPU, (60, 70))
     i = argv.index("--one")
     with open(argv[i + 1]) as f:
         doc = json.load(f)
